@@ -21,7 +21,9 @@ P1_RULE = ("histories generated from one SplitMix64 state: commits of 1..6 ops o
            "reopen (and crash for C02/C03/C07); distinct = by SHA-1 of the op list; non-trivial = the history had data "
            "in at least two different pipeline stages at some observation point")
 
-HOOK_COMMITS = ["bb68460 verif hook: read-only dump of the multitree node forest and ref-count tables (cfg pdb_verif)",
+HOOK_COMMITS = ["556ca83 verif hook: raw node bytes in the btree dump, Node::from_encoded on given bytes (cfg pdb_verif)",
+                "9377f92 verif hook: yield points around the deferral check of process_commits (cfg pdb_verif)",
+                "bb68460 verif hook: read-only dump of the multitree node forest and ref-count tables (cfg pdb_verif)",
                 "39fa7aa verif hook: expose both index page searches (cfg pdb_verif)",
                 "aa461bc verif hook: route a stepping error through store_err (cfg pdb_verif)",
                 "bafdd9c verif hook: expose last enacted record id and table configuration (cfg pdb_verif)",
@@ -429,27 +431,45 @@ PROPS = {
     "C11": {
         "level_text": ("Lean model of the commit queue, commit overlay, the log worker's plan / publish steps, reader locks, the log "
                        "worker's tree write locks, to_dereference / used_trees over a logical forest with claimed addresses, in two "
-                       "variants: current code and patched (fixes/fix-c11-defer-order.diff). Current code: C11_F4_counterexample "
-                       "(whole commit re-queued behind later ones and re-published: lost update), C11_order_false, "
+                       "variants. Variant.current = the code as shipped: it is this variant that the driver command c11 executes against "
+                       "the crate (every commit / lock / unlock / process_commits / end_record step of the deterministic scenarios, the "
+                       "F4 / F4' / F13 / F4c schedules included, all observations compared). About current: negation witnesses "
+                       "C11_F4_counterexample (whole commit re-queued behind later ones and re-published: lost update), C11_order_false, "
                        "C11_F4_insert_counterexample (re-queued {InsertTree B, DereferenceTree C} overtaken by DereferenceTree A: B "
                        "dangling), C11_F13_counterexample (dereference planned under the tree write lock but published after its "
-                       "release: a reader's locked tree vanishes), C11_order_partial (order kept for keys no re-queued transaction "
-                       "writes). Patched: C11_order_patched (final state = spec of all transactions in commit-return order), "
-                       "C11_locked_stable (root and every present reachable node unchanged while the lock is held, all "
-                       "interleavings), C11_released_completes. All counterexamples are replayed on the real crate."),
+                       "release: a reader's locked tree vanishes), C11_current_livelock (F4c: with no lock held three commits re-queue "
+                       "each other for every number of worker cycles); positive C11_order_partial, C11_order_current / C11_forest_current "
+                       "(ordinary keys AND roots / nodes equal the sequential run in commit-return order whenever no commit is postponed: "
+                       "decidable hypothesis noDeferral, satisfiable with readers on other trees), C11_locked_stable_current (a held lock "
+                       "protects root and every reachable node unless it was taken inside the F13 window inF13Window), "
+                       "C11_F13_window_only, C11_forest_published. Variant.patched = fixes/fix-c11-defer-order.diff (NOT applied, not "
+                       "executed against code; soundness of the proposed repair in the model): C11_order_patched, C11_forest_patched "
+                       "(final forest = tree events in publication order, which is the commit-return order with DereferenceTree events "
+                       "moved to the right only: DelayD), C11_forest_literal_false (the literal sequential statement is false and "
+                       "unwanted: late-lock schedule), C11_locked_stable, C11_released_completes, C11_released_completes_bounded "
+                       "(no lock held => publish + 2*queue worker cycles complete every postponed removal). C11_fuel_adequate: the "
+                       "depth bound of the model's dereference walk is exact once fuel >= height."),
         "level_note": ("'Trees inserted meanwhile that reuse its nodes stay valid' is checked by the harness and on the F4' schedule, "
                        "not proved in general (needs the client contract + reference-count correctness, C10). Pipeline collapsed to "
-                       "queue -> planned -> published (flush / enact do not affect order or lock timing). Trusted: Lean kernel, "
-                       "harness oracles (logical forest, commit-return-order map), hook fixes/hook-c05.diff."),
+                       "queue -> planned -> published (flush / enact do not affect order or lock timing; the harness emits `settle` "
+                       "lines that must not change any observation). Correspondence scope: transactions with inserts before "
+                       "dereferences, fresh tree keys, dereference only of published trees. The threaded scenario (kind 3) is oracle "
+                       "only. Trusted: Lean kernel, harness oracles (logical forest, commit-return-order map, yield-point stamps), "
+                       "hooks fixes/hook-c05.diff and fixes/f-c11/hook-c11.diff."),
         "lean": ["Pdb.Props.C11"],
-        "harness": [{"cmd": "c11", "quick": 30, "thorough": 120, "model": False, "timeout": 3000}],
-        "rule": ("kind = seed % 5: 0 F4 exactly (1..3 later writers, 3 value sizes), 1 locked-tree stability (DereferenceTree A and "
+        "harness": [{"cmd": "c11", "quick": 30, "thorough": 120, "model": True, "timeout": 3000}],
+        "rule": ("kind = seed % 5: 0 F4 exactly (1..3 later writers, 3 value sizes) or, for seed % 10 == 5, the re-queue livelock F4c "
+                 "(9..20 process_commits calls, reader handles kept or dropped); 1 locked-tree stability (DereferenceTree A and "
                  "InsertTree B sharing A's subtrees in either order, 0..2 unrelated trees, pipeline stepped under the held guard, "
-                 "entry counts), 2 insert+dereference transaction overtaken, 3 threaded reader / writer / pruner with background "
-                 "workers + watchdog + lone-postponed-commit prelude (CPU use, completion after unlock), 4 publication gap with the "
-                 "yield hook; non-trivial = shared nodes > 0 / scenario reached"),
+                 "entry counts) or late lock; 2 insert+dereference transaction overtaken; 3 threaded reader / writer / pruner with "
+                 "background workers + watchdog + lone-postponed-commit prelude (CPU use, completion after unlock), every damage "
+                 "under a held lock classified by yield-point stamps (F13 sequence shown, else violation); 4 publication gap with "
+                 "the yield hook. Kinds 0, 1, 2, 4 emit one `c11` op line per action with the observed state (ordinary reads, "
+                 "readable roots, value entries, walk of every locked tree through its guard, deferral count) and end with the "
+                 "oracle's verdict; non-trivial = shared nodes > 0 / scenario reached"),
         "assumptions": ["clients reference existing nodes only while holding the read lock of a tree that reaches them"],
-        "trusted": ["hook lib.rs verif::{set_yield_hook, yield_point} (cfg pdb_verif)"],
+        "trusted": ["hook lib.rs verif::{set_yield_hook, yield_point} (cfg pdb_verif)",
+                    "yield points process_commits.before_deferral_check / .deferred (fixes/f-c11/hook-c11.diff)"],
     },
     "C04": {
         "level_text": ("Lean theorems C04_iter_spec / C04_next_spec / C04_prev_spec / C04_seek_spec / C04_position: for every sequence of "
@@ -465,29 +485,50 @@ PROPS = {
                        "enumerates specApply of the old enumeration, and TreeInv (in-order keys strictly increasing, every leaf at the recorded "
                        "depth, children = separators + 1, occupancy <= ORDER and >= ORDER/2 for non-root nodes) holds again. The iterator model "
                        "is of the patched code (fix-c04-seek-to-last, fix-c04-start-end); C04_F5a_counterexample / C04_F5b_counterexample are "
-                       "the negation witnesses of the unpatched code."),
-        "level_note": ("Trusted: Lean kernel; the abstraction of the backend cursor (BTreeIterState node stack) as a position in the sorted "
-                       "backend list and 'equal record id => equal backend' are tied by correspondence only (model driven by the same commits / "
-                       "stage steps / iterator calls as the real Db, also the unpatched model against the unpatched crate: 0 disagreements); "
+                       "the negation witnesses of the unpatched code. COMPOSITION (Props/C04c): for the executable pipeline the driver runs "
+                       "(Pdb/Model/BTreePipe.lean Drv: commit overlay copy_to_overlay / clean_overlay, commit queue, last record id, batched "
+                       "write_plan, iterator machine on the BTreeIterState node-stack cursor, Node::get) and EVERY history of commits, process / "
+                       "flush / enact / clean / reopen, point reads and iterator calls (iterator kept open): C04_pipeline_merged (merged overlay "
+                       "(toList tree) = specApply of all accepted transactions, TreeInv, never stuck), C04_pipeline_iter_spec (every answer = "
+                       "abstract cursor on the sorted map of the LATEST committed state from the logical position), C04_pipeline_call_spec / "
+                       "_next_spec / _prev_spec (min / max form), C04_pipeline_get_spec (point read = most recent committed write). Reference-"
+                       "counted btree columns (Props/C04r): C04r_pipeline_spec (all histories / call sequences answered on the VISIBLE map = "
+                       "processed cells overridden by queued Sets), C04r_cells (cells = P1 spec applyCell .rc), C04r_live_visible, C04r_exact "
+                       "(empty queue: shown iff count > 0), C04r_value; C04r_lag_witness: a committed Dereference to count 0 is NOT seen before "
+                       "its commit is processed (the C04 clause 'latest committed state' fails on rc columns; documented C07 lag; replayed on "
+                       "the crate). Node bytes (Props/C04d): C04_node_roundtrip / _layout / _decode_total for write_node_plan / Node::from_encoded."),
+        "level_note": ("Trusted: Lean kernel; the rule 'a record that writes a value table of the column moves last_record_id' of the "
+                       "pipeline model is tied by correspondence only (model driven by the same commits / stage steps / iterator calls as the "
+                       "real Db, also the unpatched model against the unpatched crate: 0 disagreements); the literal stack cursor is ALSO run "
+                       "on every DUMPED real tree with the pipeline's overlay and record id (c04b cursor: its keys = the real iterator's keys, "
+                       "~60 000 steps per quick run), raw node bytes of every dumped node equal an independent re-encoding and are decoded by the "
+                       "Lean model of Node::from_encoded (c04b node); "
                        "the literal BTreeIterState stack cursor is proved to refine that abstract cursor (C04b_cursor_refines / _total / _next_backend), "
                        "the batching loop of Node::change is proved equal to one descent per change (C04b_batch_refines, C04b_batch_refines_tx) and the "
                        "address indirection is proved leak-free (C04b_address_indirection / _release / _no_leak); the batched model's tree is compared "
                        "node by node (separator hashes) with the dumped real tree after every processed commit (c04b tree), and the Lean checker "
                        "checkTree (sound for TreeInv: C14Dump_tree_sound) is evaluated on every dump; value storage below the tree is C06."),
-        "lean": ["Pdb.Props.C04", "Pdb.Props.C04b", "Pdb.Props.C14Dump"],
+        "lean": ["Pdb.Props.C04", "Pdb.Props.C04b", "Pdb.Props.C04c", "Pdb.Props.C04r", "Pdb.Props.C04d", "Pdb.Props.C14Dump"],
         "harness": [{"cmd": "c04", "quick": 150, "thorough": 1500, "max_search": 3000}],
-        "rule": ("one SplitMix64 state per case: btree column (plain / lz4), pool of 5..400 (thorough ..1200) distinct keys of length 0..300 "
+        "rule": ("one SplitMix64 state per case: btree column (plain / lz4; one case in four ref_counted + preimage: Set / Dereference / "
+                 "Reference with repeated keys in one transaction, value = function of the key, oracle = independent (value, count) map: "
+                 "exact with an empty queue, while commits are queued every live key shown / nothing never-visible shown / no live key "
+                 "skipped / value = preimage), pool of 5..400 (thorough ..1200) distinct keys of length 0..300 "
                  "(emphasis 253..257, prefix chains, shared long stems; thorough: up to two keys > 64 KiB), 50..150 (thorough 80..260) actions: "
                  "commits of 1..6 or 20..200 changes (random or contiguous sorted runs, repeated keys inside one transaction, grow / churn / "
                  "shrink phases; one case in eight starts with an ascending fill of 400 keys -> depth 3), process_commits / flush_logs / "
                  "enact_logs / clean_logs, point reads, a tree dump after every processed commit, bursts of 1..7 iterator calls on an iterator "
                  "kept open across commits (new 3%, seek 12% incl. keys outside the pool, seek_to_first 4%, seek_to_last 8%, next / prev "
-                 "with direction changes); full forward and backward scan, reopen, scan again; distinct by SHA-1 of the op list; "
+                 "with direction changes), every iterator call repeated on the stack-cursor model over the dumped real tree (c04b cursor), "
+                 "1 % of the actions close + reopen the database in the middle of the case; per dump: raw bytes of every node against an "
+                 "independent re-encoding, 2 nodes + 1 mutated byte string decoded by the Lean node codec (c04b node); full forward and "
+                 "backward scan, reopen, scan again (sent to the model); distinct by SHA-1 of the op list; "
                  "non-trivial = answers came from two different layers (commit overlay / log overlay / files) or the tree reached depth >= 1"),
         "assumptions": [A_COMPRESS,
-                        "backend cursor abstraction and record-id/backend coupling of Pdb/Model/BTreeIter.lean (validated by the runs)",
+                        "record-id rule of Pdb/Model/BTreePipe.lean (which commits move last_record_id; validated by the runs)",
+                        "rc columns: readers see queued Dereferences only after process_commits (C07 lag, C04r_lag_witness)",
                         "presence test of the address model is lookup in toList (stated simplification of C04b_address_indirection)"],
-        "trusted": ["hook btree::verif::{verif_dump, separator_codec} / verif::btree_dump (cfg pdb_verif, read-only)"],
+        "trusted": ["hook btree::verif::{verif_dump, separator_codec, node_codec, NodeDump::encoded} / verif::btree_dump (cfg pdb_verif, read-only)"],
     },
     "C15": {
         "level_text": ("Lean theorems C15_no_lost_wakeup (all configurations), C15_commit_returns / C15_commit_wakeups, "
